@@ -73,7 +73,7 @@ def check(run):
     if stats['early_stop'] == 0 or stats['max_iter_reached'] == 0 or stats['diverging_step'] == 0 or stats['splits_compared'] == 0:
         raise RuntimeError('vacuity guard: %r' % stats)
     for sid, seq, clause in rejects:
-        if clause not in ('opt-report', 'opt-split', 'opt-verbose'):
+        if clause not in ('opt-report', 'opt-split', 'opt-verbose') + ('opt-raised',):
             continue
         ev = byid[(sid, seq)]
         s = sessions[sid]
